@@ -128,7 +128,10 @@ type Engine struct {
 	BadAsserts  map[*ssa.TypeAssert]string
 	SeenAsserts map[*ssa.TypeAssert]bool
 	Analysed    map[*ssa.Function]bool
-	chain       []string
+	// CallShapes accumulates, per call instruction, the union of the shapes of
+	// its error result over every context in which it was evaluated.
+	CallShapes map[*ssa.Call]Set
+	chain      []string
 }
 
 // Result of evaluating a function for given argument shapes.
@@ -141,7 +144,7 @@ type Result struct {
 func New(inScope func(fn *ssa.Function) bool) *Engine {
 	return &Engine{InScope: inScope, memo: map[string]*Result{}, active: map[string]bool{},
 		PanicsReached: map[*ssa.Panic][]string{}, PanicsSeen: map[*ssa.Panic]bool{},
-		BadAsserts: map[*ssa.TypeAssert]string{}, SeenAsserts: map[*ssa.TypeAssert]bool{}, Analysed: map[*ssa.Function]bool{}}
+		BadAsserts: map[*ssa.TypeAssert]string{}, SeenAsserts: map[*ssa.TypeAssert]bool{}, Analysed: map[*ssa.Function]bool{}, CallShapes: map[*ssa.Call]Set{}}
 }
 
 func isErrorLike(t types.Type) bool {
@@ -509,6 +512,11 @@ func (e *Engine) eval(fn *ssa.Function, args []Arg) *Result {
 							env[v] = r[0]
 						} else {
 							env[v] = Of(Nil, Unknown("call:"+calleeName(&v.Call)))
+						}
+						if old, ok := e.CallShapes[v]; ok {
+							e.CallShapes[v] = old.Union(env[v])
+						} else {
+							e.CallShapes[v] = env[v].Clone()
 						}
 					}
 				case *ssa.RunDefers:
